@@ -84,6 +84,17 @@ def field_ref(f, positional_default=False):
         for p in f.post:
             e += '.' + (p if '(' in p else p + '()')
         return e
+    if cons and re.match(r'^pure(_with)?\(', cons):
+        # a constant "consumer" takes nothing from the line.  pure(v) IS the value of the field, whatever its shape; pure_with(f)
+        # is a parser of the INNER type like any other consumer, so Option / Vec fields get optional() / many() around it
+        e = '::bpaf::' + cons
+        parse_like = any(re.match(r'^(optional|many|some|map|parse|collect|count|last)\b', p) for p in f.post)
+        if cons.startswith('pure_with(') and not parse_like:
+            if shape == 'Option': e += '.optional()'
+            elif shape == 'Vec': e += '.many()'
+        for p in f.post:
+            e += '.' + (p if '(' in p else p + '()')
+        return e
     if named:
         names = []
         for (k, v) in f.naming:
@@ -359,6 +370,14 @@ def base_family():
     M.append(Member('b_group_help_explicit', 'struct', 'Rect', top=['group_help("Takes a rectangle")'], doc='Dimensions of a rectangle, in meters', fields=[F('width', 'u32', doc='Width'), F('height', 'u32')]))
     M.append(Member('b_group_help_enum', 'enum', 'Syntax', top=['group_help("Output syntax")'], doc='Which syntax to use', variants=[
         dict(name='Intel', shape='unit', doc='Intel style'), dict(name='Att', shape='unit')]))
+    # constant consumers: pure(v) is the field's value as it is, pure_with(f) gets the implicit optional()/many() of its shape
+    M.append(Member('b_pure_consumers', 'struct', 'Consts', top=['options'], fields=[
+        F('seed', 'Option<u32>', cons='pure_with(|| Ok::<_, String>(Default::default()))'), F('extra', 'Vec<u32>', cons='pure_with(|| Ok::<_, String>(Default::default()))'),
+        F('fixed', 'u32', cons='pure(7)'), F('maybe', 'Option<u32>', cons='pure(None)'), F('n', 'u32')]))
+    # an explicit header(..) on a command variant replaces the header block of the doc comment and nothing else
+    M.append(Member('b_cmd_variant_header', 'enum', 'Tool', top=['options'], variants=[
+        dict(name='Build', shape='named', attrs=['command', 'header("explicit header")'], doc='Build it\n\n\ndoc header block\n\n\ndoc footer block', fields=[F('release', 'bool')]),
+        dict(name='Clean', shape='unit', attrs=['command', 'footer("explicit footer")'], doc='Clean it\n\n\nheader of clean\n\n\nfooter of clean')]))
     # implicit names follow the word rule, whatever the style of the identifier
     M.append(Member('b_cmd_multiword', 'struct', 'CheckConnection', top=['command'], doc='check it', fields=[F('retry_count', 'u32')]))
     M.append(Member('b_case_rule', 'struct', 'CaseRule', top=['options'], fields=[F('max_KiB', 'u32'), F('HTTPProxy', 'Option<String>'), F('x_Y', 'bool', naming=[('long', None), ('short', None)])]))
